@@ -132,6 +132,27 @@ CHECKS = {
             'Trusts the nested reference model; each object inserted at most once; shadowed handles examined '
             'only at clear().',
             'DESIGN.md section 3 / C11'),
+    'C12': ('exploration',
+            'model-based stateful property testing (Hypothesis): counting handles with fresh odd/falsy load '
+            'values, accesses through every access path incl. static snapshots and SimpleLoop.switch, '
+            'interleaved with clear(); per-handle cache model',
+            'Randomised search with shrinking over access/clear histories on a small layered tree; every '
+            'access is checked for object identity and for the number of load() runs, Handle.cached after '
+            'every step; values include None, 0, empty containers, NaN and objects with hostile __bool__/__eq__. '
+            'Small-scope confidence, no proof.',
+            'Trusts the per-handle model; fixed tree layout with identifier names; singletons judged by the '
+            'load counter.',
+            'DESIGN.md section 3 / C12'),
+    'C17': ('exploration',
+            'property-based testing (Hypothesis): generated resource trees with identifier and non-identifier '
+            'names, round-trip (mirror) oracle against the source map, mutation attempts on every snapshot node',
+            'Randomised search with shrinking over tree shapes and name mixes (keywords, underscores, '
+            'dunder-shaped, private-looking, empty, blanks, dots, digits first, non-ASCII, layered handles); '
+            'item / attribute / get access compared with the source for every node, absent near-miss names '
+            'must raise, every setattr/delattr must raise and leave the mirror intact.',
+            'Names colliding with members of the snapshot type are excluded as the property says; '
+            'snapshot.__dict__ is not manipulated directly.',
+            'DESIGN.md section 3 / C17'),
 }
 
 ALL = ['C%02d' % i for i in range(1, 21)]
